@@ -4,6 +4,7 @@
 from __future__ import annotations
 
 import itertools
+import unicodedata
 
 from . import common, pstate, contexts
 from .common import Consumer, uncodes, codes, tla_seq, guarded
@@ -76,6 +77,138 @@ def run_builtin_tables(ctx):
         ctx.log('built-in table %s: %d entries, %d chunks of <= %d characters, %d cases, %s' % (
             tname, len(tab), len(chunks), chunk, m['n'], {k: v for k, v in m['counters'].items() if k.startswith('same')}))
     ctx.notes['builtin_tables'] = 'every character of each explored chunk alone and in ordered pairs (with a, space and an unknown character) under every protection scheme and policy'
+
+
+# ---------------------------------------------------------------------------
+# code-point windows: every code point of a range, alone, under every policy (the boundaries of the ASCII
+# pass-through range, C1 controls, surrogates, ... are not left to a hand-picked list)
+
+UNIHEX_PRE = '\\ensuremath{\\langle}\\texttt{U+'
+UNIHEX_POST = '}\\ensuremath{\\rangle}'
+
+
+def port_protect(scheme, r):
+    """Encoder.tla Protect()."""
+    k = r.rfind('\\')
+    cw = k >= 0 and k < len(r) - 1 and all(('a' <= c <= 'z') or ('A' <= c <= 'Z') for c in r[k + 1:])
+    if scheme == 'none':
+        return r
+    if scheme == 'braces':
+        return '{' + r + '}' if cw else r
+    if scheme == 'braces-almost-all':
+        return '{' + r + '}' if r[:1] == '\\' else r
+    if scheme == 'braces-all':
+        return '{' + r + '}'
+    if scheme == 'braces-after-macro':
+        return r + '{}' if cw else r
+    raise ValueError(scheme)
+
+
+def port_encode(s, tab, scheme, policy, nao):
+    """Encoder.tla Enc() for one dictionary rule (the transcription TLC is compared with on every window record)."""
+    import unicodedata
+    s = unicodedata.normalize('NFC', s)
+    out = []
+    for ch in s:
+        c = ord(ch)
+        if nao and c < 127:
+            out.append(ch)
+        elif c in tab:
+            out.append(port_protect(scheme, tab[c]))
+        elif (32 <= c <= 127) or c in (10, 13, 9):
+            out.append(ch)
+        elif policy == 'keep':
+            out.append(ch)
+        elif policy == 'replace':
+            out.append('{\\bfseries ?}')
+        elif policy == 'ignore':
+            pass
+        elif policy == 'unihex':
+            out.append(UNIHEX_PRE + '%04X' % c + UNIHEX_POST)
+        else:
+            return None
+    return ''.join(out)
+
+
+WINDOW_CFGS = [dict(rules=[0], scheme='braces', policy=p, nao=n) for p in c04.POLICIES for n in (False, True)]
+
+
+class WindowConsumer(TableConsumer):
+    def feed(self, rec):
+        # the transcription used for the whole-code-space sweep must agree with TLC on every record
+        c = self.payload['cfgs'][rec['ci'] - 1]
+        s = uncodes(rec['s'])
+        exp = port_encode(s, self.payload['tab'], c['scheme'], c['policy'], c['nao'])
+        if (exp is None) != (not rec['ok']) or (exp is not None and exp != uncodes(rec['out'])):
+            raise common.MachineryError('port_encode disagrees with Encoder.tla on %r %r: %r vs %r' % (s, c, exp, rec))
+        TableConsumer.feed(self, rec)
+
+
+def _sweep_worker(args):
+    tname, lo, hi, policy, nao = args
+    from pylatexenc.latexencode import UnicodeToLatexEncoder
+    tab = table(tname)
+    enc = UnicodeToLatexEncoder(conversion_rules=[tname], replacement_latex_protection='braces', unknown_char_policy=policy,
+                                non_ascii_only=nao, unknown_char_warning=False)
+    bad = []
+    n = 0
+    for cp in range(lo, hi):
+        for s in (chr(cp), 'a' + chr(cp) + '%'):
+            n += 1
+            exp = port_encode(s, tab, 'braces', policy, nao)
+            st, val = guarded(enc.unicode_to_latex, s)
+            if exp is None:
+                ok = st == 'exc' and isinstance(val, ValueError)
+            else:
+                ok = st == 'ok' and val == exp
+            if not ok and len(bad) < 20:
+                bad.append((s, repr(val), exp))
+    return tname, policy, nao, n, bad
+
+
+def run_codepoint_windows(ctx):
+    quick = ctx.tier == 'quick'
+    W = 512
+    hi_tlc = 0x800 if quick else 0x10000
+    total = 0
+    for tname in ('defaults', 'unicode-xml'):
+        tab = table(tname)
+        jobs = []
+        for lo in range(0, hi_tlc, W):
+            # code points that NFC rewrites on their own (singleton / canonical decompositions) are left to the sweep
+            # below, where the normalisation comes from the Unicode database
+            window = [cp for cp in range(lo, lo + W) if unicodedata.normalize('NFC', chr(cp)) == chr(cp)]
+            pool = [('dict', [(cp, tab[cp]) for cp in window if cp in tab], '')]
+            text = c04.mc_text(WINDOW_CFGS, pool=pool, alphabet=window, nfc=[])
+            jobs.append(dict(payload=dict(cfgs=WINDOW_CFGS, table=tname, tab={cp: tab[cp] for cp in window if cp in tab}),
+                             main='MC_EncRun', mc=text,
+                             cfg=(c04.CFG % dict(K=1, shard=-1, idx=', '.join(str(i + 1) for i in range(len(WINDOW_CFGS))))
+                                  ).replace('Shard = -1', 'Shard <- AllShards'),
+                             tlc_kw=dict(timeout=3000, xmx='2g')))
+        m = common.run_shards(ctx, ('harness.c04_extra', 'WindowConsumer'), jobs,
+                              what='EncRun on every code point below U+%04X alone, table %r, 5 policies x non_ascii_only' % (hi_tlc, tname))
+        ctx.add_merged(m)
+        total += m['n']
+        ctx.log('code-point windows %s: U+0000..U+%04X, %d cases, %s' % (tname, hi_tlc - 1, m['n'],
+                {k: v for k, v in m['counters'].items() if k.startswith('same')}))
+    # whole code space through the transcription of Encoder.tla validated above (instantiated replay beyond TLC's range)
+    step = 0x2000
+    top = 0x30000 if quick else 0x110000
+    tasks = [(tname, lo, min(lo + step, top), policy, nao)
+             for tname in ('defaults', 'unicode-xml') for policy, nao in (('fail', False), ('unihex', False), ('replace', True))
+             for lo in range(0, top, step)]
+    n = 0
+    for tname, policy, nao, k, bad in common.pool_map(_sweep_worker, tasks):
+        n += k
+        for s, got, exp in bad:
+            ctx.violation('output-differs', dict(s=s, codepoints=[ord(c) for c in s], table=tname, scheme='braces', policy=policy, nao=nao),
+                          detail=dict(model=('ValueError' if exp is None else exp), impl=got),
+                          sig=dict(clause='output-differs', table=tname))
+    ctx.evaluations += n
+    ctx.log('code-space sweep: %d single-character / embedded strings for U+0000..U+%X (fail, unihex, replace+non_ascii_only)' % (n, top - 1))
+    ctx.notes['codepoint_windows'] = ('every code point below U+%04X alone under 5 policies x non_ascii_only by TLC (EncRun, table '
+                                      'entries of the window); U+0000..U+%X through the Python transcription of Encoder.tla that is '
+                                      'compared with TLC on every window record' % (hi_tlc, top - 1))
 
 
 # ---------------------------------------------------------------------------
@@ -166,7 +299,7 @@ def run_helper_histories(ctx):
 
 # ---------------------------------------------------------------------------
 
-P_ATOMS = ['\\', 'a', ' ', '{', '}', '$', '^', '_', '%', '\u00e9', '\n', '\\begin', '\\begin{a}', '\\alpha ', '$$', '\\(', '~', '\\end']
+P_ATOMS = ['\\', 'a', ' ', '{', '}', '$', '^', '_', '%', '\u00e9', '\n', '\\begin', '\\begin{a}', '\\alpha ', '$$', '\\(', '~', '\\end', '\u0301', 'e']
 PCFG = """CONSTANTS
   VTok = "intended"
   Atoms <- AtomsDef
@@ -176,6 +309,7 @@ PCFG = """CONSTANTS
   KeepChars = {92, 36, 123, 125, 94, 95}
   PCfg <- PCfgDef
   VPartial = "%(variant)s"
+  NfcTab <- NfcDef
 SPECIFICATION Spec
 INVARIANT NeverRaises
 INVARIANT SameAsPlainWithoutKeepChars
@@ -186,6 +320,7 @@ PMC = """---- MODULE MC_PartialEnc ----
 EXTENDS PartialEnc
 AtomsDef == %(atoms)s
 St0Def == %(st0)s
+NfcDef == << %(nfc)s >>
 PCfgDef == [rules |-> << %(rule)s >>, scheme |-> "%(scheme)s", policy |-> "keep", non_ascii_only |-> %(nao)s]
 ====
 """
@@ -194,9 +329,11 @@ PCfgDef == [rules |-> << %(rule)s >>, scheme |-> "%(scheme)s", policy |-> "keep"
 def partial_mc(scheme, nao):
     tab = table('defaults')
     chars = sorted(set(ord(c) for a in P_ATOMS for c in a))
+    nfc = c04._nfc_table(chars)
+    chars = sorted(set(chars) | set(c for _a, _b, c in nfc))
     rule = c04.rule_tla(('dict', [(cp, tab[cp]) for cp in chars if cp in tab], ''))
     return PMC % dict(atoms=pstate.atoms_tla(P_ATOMS), st0=pstate.tla_record(pstate.make(ctx='default')),
-                      rule=rule, scheme=scheme, nao='TRUE' if nao else 'FALSE')
+                      rule=rule, nfc=', '.join('<<%d, %d, %d>>' % x for x in nfc), scheme=scheme, nao='TRUE' if nao else 'FALSE')
 
 
 class PartialConsumer(Consumer):
@@ -248,5 +385,13 @@ def replay(case):
         st, val = guarded(enc.unicode_to_latex, c['s'])
         print('partial encoder', repr(c['s']), '->', st, repr(val))
         return st == 'ok' and case.get('clause') != 'partial-output-differs'
+    if 'table' in c and 'policy' in c and 'nao' in c:
+        from pylatexenc.latexencode import UnicodeToLatexEncoder
+        enc = UnicodeToLatexEncoder(conversion_rules=[c['table']], replacement_latex_protection=c['scheme'],
+                                    unknown_char_policy=c['policy'], non_ascii_only=c['nao'], unknown_char_warning=False)
+        st, val = guarded(enc.unicode_to_latex, c['s'])
+        exp = port_encode(c['s'], table(c['table']), c['scheme'], c['policy'], c['nao'])
+        print('encoder', repr(c['s']), c['table'], c['policy'], '->', st, repr(val), '; rule semantics:', repr(exp) if exp is not None else 'ValueError')
+        return (st == 'exc' and isinstance(val, ValueError)) if exp is None else (st == 'ok' and val == exp)
     print(c)
     return False
